@@ -3,7 +3,7 @@
   Rivia.Model.Posix): one call per line, `result ## tree \t reference \t class`.
 -/
 import Driver.MemfsFn
-import Rivia.Lemmas.StdfsMain
+import Rivia.Lemmas.Stdfs
 
 namespace Driver
 open Rivia Rivia.Memfs Rivia.Spec Rivia.Spec.TreeFs Rivia.Lemmas.StdfsL
@@ -16,14 +16,11 @@ def stdClass (env : Env) (t : T) (op : Op) : String :=
   else if !((opArgs op).all (argOk env t)) then "dom_arg"
   else if !(opOk env t op) then
     (match op with
-     | .remove _ => "S1_remove_link_to_dir"
-     | .mkdirM _ _ => "S2_mkdir_m_on_file"
-     | .readlinkAbs _ => "S3_readlink_abs_non_link"
-     | .removeAll _ => "S4_remove_all_file"
-     | .isDir _ | .isFile _ => "S5_is_dir_skips_abs"
      | .isExec _ | .isReadonly _ | .uid _ | .gid _ | .owner _ => "S6_metadata_follows_link"
      | .writeLines _ _ | .appendLines _ _ | .appendLine _ _ => "empty_lines_noop"
      | .moveP _ _ => "S8_move_links"
+     | .paths _ | .dirs _ | .files _ | .allPaths _ | .allDirs _ | .allFiles _ => "S7_listing_links"
+     | .chown _ _ _ | .chownB _ _ => "S16_chown_follows_link"
      | _ => "opOk")
   else if !(CoveredS op) then "uncovered"
   else "-"
